@@ -21,9 +21,14 @@ EXPLANATION = (
     "as itself (rewrites: idempotent % 65536, chunks(join(xs), n) = xs, struct-strided chunks; finite enumeration for bit "
     "selectors and the documented connection-type domain); the format sequence of to_pack_list equals format_list. Every "
     "VariablePayload definition has names/format arity agreement, raw only last, registered formats, paired hooks. Every "
-    "Packer is abstractly run: the bytes read by unpack tile [offset, returned offset) exactly and pack writes the same "
-    "layout (same length format and unit; wire values are named by the read they come from, not by the local that holds them); "
-    "per address tag the decoder reads the layout and uses the inet_* partner of the pack branch that writes the tag. "
+    "Packer is abstractly run path by path: the bytes read by unpack tile [offset, returned offset) exactly and pack writes the same "
+    "layout (same length format and unit; wire values are named by the read they come from, not by the local that holds them; "
+    "helpers that receive the buffer are run in a frame of their own, scans of / lookups in constant tables are taken entry by entry, "
+    "the bytes pack returns are followed through locals, joins, part lists, with/try blocks and loops); "
+    "per address tag - the first wire byte is assumed to be that tag and the conditions on it are evaluated - the decoder reads the "
+    "layout and uses the inet_* partner of the pack branch that writes the tag. "
+    "The Serializer's registration table is what its constructor computes (interpreted), and every pack()/unpack() its coding methods "
+    "make takes the packer from that per-instance table only (no module-level / stale copy of resolved packers). "
     "Registered format names agree with the grammar their name spells and with the byte counts of "
     "doc/reference/serialization.rst. Bits.pack/unpack and the cell codec (CellPayload.to_bin/from_bin/unwrap, "
     "TunnelCommunity.send_cell) are decided by evaluating their AST with a small interpreter on the whole finite domain "
@@ -36,14 +41,80 @@ TABLES = os.path.join(os.path.dirname(os.path.dirname(__file__)), "tables")
 
 
 # ------------------------------------------------------------------------------------------ serializer table
+class _Made:
+    """record of a constructor call evaluated while interpreting Serializer.__init__"""
+
+    def __init__(self, cls: str, args: list, kwargs: dict) -> None:
+        self.cls, self.args, self.kwargs = cls, args, kwargs
+
+    def to_ast(self) -> ast.Call:
+        def conv(v):
+            if isinstance(v, _Made):
+                return v.to_ast()
+            if isinstance(v, Opaque):
+                return ast.Name(id="self" if v.label.startswith("Serializer") else v.label, ctx=ast.Load())
+            if isinstance(v, (str, bytes, int, float, bool, type(None))):
+                return ast.Constant(value=v)
+            if isinstance(v, (tuple, list)):
+                return (ast.Tuple if isinstance(v, tuple) else ast.List)(elts=[conv(x) for x in v], ctx=ast.Load())
+            raise MiniUndecided(f"constructor argument {v!r}")
+        call = ast.Call(func=ast.Name(id=self.cls, ctx=ast.Load()), args=[conv(a) for a in self.args],
+                        keywords=[ast.keyword(arg=k, value=conv(v)) for k, v in self.kwargs.items()])
+        return ast.fix_missing_locations(call)
+
+
 def serializer_table(ctx: Ctx) -> dict[str, ast.Call]:
+    """
+    name -> constructor call of the packer registered under it by Serializer.__init__.  Decided by interpreting __init__ (dict display,
+    later .update() / item assignments, comprehensions over constant name tuples, private helper functions): what counts is the table the
+    constructor leaves in self._packers, not how it is written.  Falls back to the dict display assigned to self._packers when the
+    constructor does something the interpreter does not model.
+    """
+    cached = getattr(ctx, "_c02_serializer_table", None)
+    if cached is not None:
+        return cached
     init = ctx.repo.method("Serializer", "__init__", SER)
-    for s in walk_no_nested(init.node):
-        v = getattr(s, "value", None)
-        tgt = s.targets[0] if isinstance(s, ast.Assign) else getattr(s, "target", None)
-        if isinstance(s, (ast.Assign, ast.AnnAssign)) and isinstance(v, ast.Dict) and tgt is not None and chain(tgt) == "self._packers":
-            return {const_value(k): strip_cast(val) for k, val in zip(v.keys, v.values)}
-    raise AnalysisError("anchor-lost: Serializer._packers table")
+    me = Opaque("Serializer instance")
+
+    def hooks(name, base, args, kwargs):
+        if name == "super":
+            return Opaque("super")
+        if isinstance(base, Opaque) and base.label == "super":
+            return None
+        if name is not None and base is None:
+            k = ctx.repo.resolve_class_expr(init.module, ast.parse(name, mode="eval").body) if re.fullmatch(r"[A-Za-z_][\w.]*", name) else None
+            if k is not None:
+                return _Made(k.name, list(args), dict(kwargs))
+        return NotImplemented
+    table = None
+    try:
+        Mini(ctx.repo, init, hooks)(me)
+        made = me.attrs.get("_packers")
+        if isinstance(made, dict) and made and all(isinstance(k, str) and isinstance(v, _Made) for k, v in made.items()):
+            table = {k: v.to_ast() for k, v in made.items()}
+    except (MiniUndecided, MiniRaised):
+        table = None
+    ctx._c02_table_exact = table is not None
+    if table is None:
+        for s in walk_no_nested(init.node):
+            v = getattr(s, "value", None)
+            tgt = s.targets[0] if isinstance(s, ast.Assign) else getattr(s, "target", None)
+            if isinstance(s, (ast.Assign, ast.AnnAssign)) and isinstance(v, ast.Dict) and tgt is not None and chain(tgt) == "self._packers":
+                table = {const_value(k): strip_cast(val) for k, val in zip(v.keys, v.values)}
+                break
+    if table is None:
+        raise AnalysisError("anchor-lost: Serializer._packers table")
+    ctx._c02_serializer_table = table       # (rules ask for the table several times)
+    return table
+
+
+def _table_is_interpreted(ctx: Ctx) -> bool:
+    """True when serializer_table() is the table Serializer.__init__ computes (interpreted), not just the first dict display found."""
+    init = ctx.repo.method("Serializer", "__init__", SER)
+    displays = [s for s in walk_no_nested(init.node) if isinstance(s, (ast.Assign, ast.AnnAssign)) and isinstance(getattr(s, "value", None), ast.Dict)
+                and chain(s.targets[0] if isinstance(s, ast.Assign) else s.target) == "self._packers"]
+    t = serializer_table(ctx)
+    return getattr(ctx, "_c02_table_exact", False) and not (len(displays) == 1 and [const_value(k) for k in displays[0].value.keys] == list(t))
 
 
 def extra_packers(ctx: Ctx) -> dict[str, tuple[str, ast.Call]]:
@@ -96,6 +167,17 @@ class _TermEval(TermEval):
                     pieces = tuple((off, off + sz, "bytes" if code == "s" else f"unpack:{prefix}{code}") for off, sz, code in lay)
                     # every element is the tuple of all fields (iter_unpack yields tuples)
                     return simplify(T("chunks", (self.ev(inner.args[1]), Const(size), Const(pieces))))
+        if isinstance(e0, (ast.Tuple, ast.List)) and any(isinstance(x, ast.Starred) for x in e0.elts):
+            elts: list[T] = []
+            for x in e0.elts:
+                if isinstance(x, ast.Starred):
+                    seq = self.ev(x.value)             # (a, *rest): the elements of a tuple / list term, in place
+                    if seq.op not in ("tuple", "list"):
+                        raise Undecided(f"starred element `{norm(x)[:40]}`")
+                    elts.extend(seq.args)
+                else:
+                    elts.append(self.ev(x))
+            return T("tuple" if isinstance(e0, ast.Tuple) else "list", tuple(elts))
         if isinstance(e0, ast.UnaryOp) and isinstance(e0.op, ast.Not):
             return T("not", (self.ev(e0.operand),))
         if isinstance(e0, ast.BinOp) and isinstance(e0.op, ast.BitAnd):
@@ -103,20 +185,336 @@ class _TermEval(TermEval):
                 mask = self.repo.resolve_const(self.fi.module, m, self.fi.cls)
                 if isinstance(mask, int) and not isinstance(mask, bool) and mask > 0 and (mask & (mask + 1)) == 0:
                     return simplify(T("mod", (self.ev(x), Const(mask + 1))))        # x & (2**k - 1) == x % 2**k for every int x
+        if isinstance(e0, ast.Call) and chain(e0.func) in ("list", "tuple") and len(e0.args) == 1 and not e0.keywords:
+            inner = strip_cast(e0.args[0])
+            # list(<generator expression>) = the list comprehension;  list(map(lambda x: E, Y)) = [E for x in Y]
+            comp = _as_listcomp(inner)
+            if comp is not None and chain(e0.func) == "list":
+                return self.ev(comp)
+            # list(<list-valued term>) = the same elements (a call that was followed into a generator / list helper, a comprehension)
+            if chain(e0.func) == "list":
+                t = self.ev(inner)
+                if t.op in ("chunks", "map", "list"):
+                    return t
+                return T("call", ("list", t))
+        if isinstance(e0, ast.GeneratorExp) or (isinstance(e0, ast.Call) and chain(e0.func) == "map"):
+            comp = _as_listcomp(e0)
+            if comp is not None:
+                return self.ev(comp)         # consumed element by element, in order: as a term the same sequence
+        if isinstance(e0, ast.Call):
+            followed = self._follow(e0)
+            if followed is not None:
+                return followed
+            fname = chain(e0.func)
+            if fname is not None and fname not in ("pack", "struct.pack") and any(isinstance(a, ast.Starred) for a in e0.args) and not e0.keywords:
+                args: list[T] = []
+                for a in e0.args:
+                    if isinstance(a, ast.Starred):
+                        seq = self.ev(a.value)         # f(*pair): the elements of a tuple / list term as separate arguments
+                        if seq.op not in ("tuple", "list"):
+                            raise Undecided(f"starred argument `{norm(a)[:40]}`")
+                        args.extend(seq.args)
+                    else:
+                        args.append(self.ev(a))
+                return T("call", (fname, *args))
         return super().ev(e)
+
+    # ---- helper calls: a pure helper applied to argument terms denotes the term of its body
+    _KEEP_AS_CALL = ("encode_connection_type", "decode_connection_type")     # decided by enumeration over the documented domain
+
+    def _follow(self, call: ast.Call) -> T | None:
+        f = call.func
+        if any(isinstance(a, ast.Starred) for a in call.args) or any(k.arg is None for k in call.keywords) or getattr(self, "_depth", 0) > 3:
+            return None
+        target, recv = None, None
+        if isinstance(f, ast.Name) and f.id not in self.env and f.id not in self._KEEP_AS_CALL:
+            r = self.repo.resolve_name(self.fi.module, f.id)
+            if isinstance(r, FuncInfo) and r.cls is None:
+                target = r
+        elif isinstance(f, ast.Attribute) and isinstance(f.value, ast.Name) and self.fi.cls is not None and f.attr not in self._KEEP_AS_CALL:
+            params = self.fi.params()
+            first = params[0] if params else None
+            k = None
+            if f.value.id in ("self", "cls") and f.value.id == first:
+                k = self.fi.cls
+            elif f.value.id not in self.env:
+                k = self.repo.resolve_class_expr(self.fi.module, f.value)
+            m = k.lookup(f.attr) if k is not None else None
+            if m is not None and m.name not in ("to_pack_list", "from_unpack_list", "__init__"):
+                decs = {d.split(".")[-1] for d in m.decorator_names()}
+                if "staticmethod" in decs:
+                    target = m
+                elif "classmethod" in decs:
+                    target, recv = m, T("cls", ())
+                elif f.value.id == "self" and first == "self" and not decs:
+                    target, recv = m, "self"
+        if target is None or target.is_async or target is self.fi:
+            return None
+        try:
+            argterms = [self.ev(a) for a in call.args]
+            kwterms = {k.arg: self.ev(k.value) for k in call.keywords}
+            return _eval_helper(self, target, recv, argterms, kwterms)
+        except Undecided:
+            return None
 
     def _listcomp(self, e: ast.ListComp, g: ast.comprehension) -> T:
         # [x for x in Y] = list(Y)
         if isinstance(g.target, ast.Name) and isinstance(e.elt, ast.Name) and e.elt.id == g.target.id:
             fake = ast.Call(func=ast.Name(id="list", ctx=ast.Load()), args=[g.iter], keywords=[])
             return self.ev(ast.copy_location(fake, e))
-        return super()._listcomp(e, g)
+        if isinstance(g.target, (ast.Tuple, ast.List)):
+            # [E(a, b) for a, b in Y]: a, b are the components of the element
+            inner = _TermEval(self.repo, self.fi, dict(self.env), self.self_fields)
+            inner._depth = getattr(self, "_depth", 0)
+            _bind_target(inner, g.target, T("elem", ()))
+            return _compose_map(T("map", (inner.ev(e.elt), self.ev(g.iter))))
+        if isinstance(g.target, ast.Name):
+            it = g.iter
+            if isinstance(it, ast.Call) and chain(it.func) == "range" and len(it.args) == 3:
+                try:
+                    t = super()._listcomp(e, g)           # the reviewed spelling [X[i:i+n] .. for i in range(0, len(X), n)]
+                    if t.op == "chunks":
+                        return t
+                except Undecided:
+                    pass
+            # the element function is evaluated by this class (not the base evaluator) so that helper calls / masks inside it are understood
+            inner = _TermEval(self.repo, self.fi, {**self.env, g.target.id: T("elem", ())}, self.self_fields)
+            inner._depth = getattr(self, "_depth", 0)
+            return _compose_map(T("map", (inner.ev(e.elt), self.ev(it))))
+        return _compose_map(super()._listcomp(e, g))
 
 
-def _decode_ctor(ev: TermEval, fi: FuncInfo) -> tuple[ast.Call, list[T], dict[str, T]]:
+def _as_listcomp(e: ast.AST) -> ast.ListComp | None:
+    """The list comprehension that yields the same elements in the same order as a generator expression / map(lambda x: E, Y)."""
+    e = strip_cast(e)
+    if isinstance(e, ast.GeneratorExp):
+        return ast.copy_location(ast.ListComp(elt=e.elt, generators=e.generators), e)
+    if isinstance(e, ast.Call) and chain(e.func) == "map" and len(e.args) == 2 and not e.keywords and isinstance(e.args[0], ast.Lambda):
+        lam = e.args[0]
+        a = lam.args
+        if len(a.args) == 1 and not (a.posonlyargs or a.kwonlyargs or a.vararg or a.kwarg or a.defaults):
+            tgt = ast.Name(id=a.args[0].arg, ctx=ast.Store())
+            comp = ast.comprehension(target=tgt, iter=e.args[1], ifs=[], is_async=0)
+            return ast.fix_missing_locations(ast.copy_location(ast.ListComp(elt=lam.body, generators=[comp]), e))
+    return None
+
+
+def _compose_map(t: T) -> T:
+    """
+    map(f, chunks(X, n, whole)) where f takes constant slices of its element (optionally struct-decoded) = chunks(X, n, those slices):
+    entry[a:b] of entry = X[i:i+n] is X[i+a:i+min(b, n)] for every X (also for a short last chunk).
+    """
+    if t.op == "map" and t.args[1].op == "call" and t.args[1].args[0] == "range" and len(t.args[1].args) == 4:
+        # [f(X[i+a:i+b] ..) for i in range(0, len(X), n)]: the element function takes slices of X at constant distances from the running index
+        f, (_, start, stop, step) = t.args[0], t.args[1].args
+        if start == Const(0) and stop.op == "len" and is_const(step) and isinstance(step.args[0], int) and not isinstance(step.args[0], bool) and step.args[0] > 0:
+            src = stop.args[0]
+
+            def dist(x: T):
+                if x.op == "elem":
+                    return 0
+                if x.op == "add" and len(x.args) == 2:
+                    for a, b in (x.args, x.args[::-1]):
+                        if a.op == "elem" and is_const(b) and isinstance(b.args[0], int) and not isinstance(b.args[0], bool) and b.args[0] >= 0:
+                            return b.args[0]
+                return None
+
+            def rpiece(x: T):
+                dec = "bytes"
+                if x.op == "index" and x.args[1] == Const(0) and x.args[0].op == "unpack" and len(x.args[0].args) == 2 and is_const(x.args[0].args[0]) \
+                        and isinstance(x.args[0].args[0].args[0], str):
+                    dec = "unpack:" + x.args[0].args[0].args[0]
+                    x = x.args[0].args[1]
+                if x.op == "slice" and x.args[0] == src:
+                    lo, hi = dist(x.args[1]), dist(x.args[2])
+                    if lo is not None and hi is not None:
+                        return (lo, hi, dec)
+                return None
+            if f.op == "tuple":
+                ps = [rpiece(x) for x in f.args]
+                ps = ps if len(ps) >= 2 and all(p is not None for p in ps) else None
+            else:
+                p = rpiece(f)
+                ps = [p] if p is not None else None
+            if ps is not None:
+                return simplify(T("chunks", (src, step, Const(tuple(ps)))))
+        return t
+    if t.op != "map" or t.args[1].op != "chunks":
+        return t
+    f, (src, stride, pieces) = t.args[0], t.args[1].args
+    n = stride.args[0]
+    if not isinstance(n, int) or isinstance(n, bool) or n <= 0 or pieces.args[0] != ((0, n, "bytes"),):
+        return t
+
+    def piece(x: T):
+        dec = "bytes"
+        if x.op == "index" and x.args[1] == Const(0) and x.args[0].op == "unpack" and len(x.args[0].args) == 2 and is_const(x.args[0].args[0]) \
+                and isinstance(x.args[0].args[0].args[0], str):
+            dec = "unpack:" + x.args[0].args[0].args[0]
+            x = x.args[0].args[1]
+        if x.op == "elem":
+            return (0, n, dec)
+        if x.op == "slice" and x.args[0].op == "elem" and is_const(x.args[1]) and is_const(x.args[2]):
+            lo, hi = x.args[1].args[0], x.args[2].args[0]
+            lo = 0 if lo is None else lo
+            hi = n if hi is None else hi
+            if all(isinstance(v, int) and not isinstance(v, bool) for v in (lo, hi)) and 0 <= lo <= hi:
+                return (min(lo, n), min(hi, n), dec)
+        return None
+    if f.op == "tuple":
+        ps = [piece(x) for x in f.args]
+        if len(ps) < 2 or any(p is None for p in ps):
+            return t
+    else:
+        p = piece(f)
+        if p is None:
+            return t
+        ps = [p]
+    return simplify(T("chunks", (src, stride, Const(tuple(ps)))))
+
+
+def _bind_helper(ev: "_TermEval", target: FuncInfo, recv, argterms: list[T], kwterms: dict[str, T]) -> "_TermEval":
+    """Evaluator for the body of `target` with its parameters bound to the caller's argument terms (recv: None | "self" | term of cls)."""
+    a = target.node.args
+    if a.kwarg or a.posonlyargs or a.kwonlyargs:
+        raise Undecided(f"helper {target.qualname}: signature")
+    params = [p.arg for p in a.args]
+    env: dict[str, T] = {}
+    if recv is not None:
+        if not params or (recv == "self" and params[0] != "self"):
+            raise Undecided(f"helper {target.qualname}: receiver parameter")
+        if recv != "self":
+            env[params[0]] = recv
+        params = params[1:]
+    defaults = dict(zip(params[len(params) - len(a.defaults):], a.defaults)) if a.defaults else {}
+    rest = argterms[len(params):]
+    argterms = argterms[:len(params)]
+    if (rest and a.vararg is None) or set(kwterms) - set(params[len(argterms):]):
+        raise Undecided(f"helper {target.qualname}: arguments do not fit the signature")
+    if a.vararg is not None:
+        env[a.vararg.arg] = T("tuple", tuple(rest))
+    # without an instance `self.x` cannot occur: an empty field table makes any such read Undecided instead of a wrong Field term
+    sub = _TermEval(ev.repo, target, env, ev.self_fields if recv == "self" else {})
+    sub._depth = getattr(ev, "_depth", 0) + 1
+    for i, p in enumerate(params):
+        if i < len(argterms):
+            sub.env[p] = argterms[i]
+        elif p in kwterms:
+            sub.env[p] = kwterms[p]
+        elif p in defaults:
+            sub.env[p] = _TermEval(ev.repo, target, {}, {}).ev(defaults[p])
+        else:
+            raise Undecided(f"helper {target.qualname}: missing argument {p}")
+    return sub
+
+
+def _eval_helper(ev: "_TermEval", target: FuncInfo, recv, argterms: list[T], kwterms: dict[str, T]) -> T:
+    """
+    Term of a call to a small pure helper: parameters bound to the argument terms, straight-line local assignments, then ONE `return E`
+    (the term of E), or a generator body `for x in Y: yield E` / `yield from Y` (the element sequence).  Anything else: Undecided.
+    """
+    sub = _bind_helper(ev, target, recv, argterms, kwterms)
+    body = _straight_line(target.node.body)
+    for i, st in enumerate(body):
+        last = i == len(body) - 1
+        if isinstance(st, (ast.Assign, ast.AnnAssign)) and st.value is not None:
+            tgts = st.targets if isinstance(st, ast.Assign) else [st.target]
+            val = sub.ev(st.value)
+            for tg in tgts:
+                _bind_target(sub, tg, val)
+            continue
+        if isinstance(st, ast.Return) and st.value is not None and last:
+            return sub.ev(st.value)
+        if isinstance(st, ast.Expr) and isinstance(st.value, ast.YieldFrom) and last:
+            return sub.ev(ast.copy_location(ast.Call(func=ast.Name(id="list", ctx=ast.Load()), args=[st.value.value], keywords=[]), st))
+        if isinstance(st, ast.For) and last and not st.orelse and len(st.body) == 1 and isinstance(st.body[0], ast.Expr) \
+                and isinstance(st.body[0].value, ast.Yield) and st.body[0].value.value is not None:
+            comp = ast.comprehension(target=st.target, iter=st.iter, ifs=[], is_async=0)
+            return sub.ev(ast.fix_missing_locations(ast.copy_location(ast.ListComp(elt=st.body[0].value.value, generators=[comp]), st)))
+        raise Undecided(f"helper {target.qualname}: statement `{norm(st)[:50]}`")
+    raise Undecided(f"helper {target.qualname}: no return")
+
+
+def _mentions_name(node: ast.AST, name: str) -> bool:
+    return any(isinstance(x, ast.Name) and x.id == name for x in ast.walk(node))
+
+
+def _straight_line(stmts: list) -> list:
+    """
+    Statement list without docstrings / pass, where an accumulation loop
+        L = []   ...   for x in Y: L.append(E)          (also `L += [E]`, `L.extend([E])`, `L.extend(E for ..)` is not needed)
+    is replaced by the comprehension it spells, `L = [E for x in Y]` (nothing between the two statements mentions L; E does not mention L).
+    New nodes only: the analysed tree is not modified.
+    """
+    body = [s for s in stmts if not (isinstance(s, ast.Expr) and isinstance(s.value, ast.Constant)) and not isinstance(s, ast.Pass)]
+    out: list = []
+    for pos, st in enumerate(body):
+        acc = _accumulation(st)
+        if acc is not None and any(_read_before_rebound(body[pos + 1:], nm.id) for nm in ast.walk(st.target) if isinstance(nm, ast.Name)):
+            acc = None          # the loop variable is used after the loop: a comprehension would not leave it bound
+        if acc is not None:
+            name, elt = acc
+            # the matching `name = []`, with no mention of name in between
+            j = len(out) - 1
+            while j >= 0 and not _mentions_name(out[j], name):
+                j -= 1
+            init = out[j] if j >= 0 else None
+            tgt = None
+            if isinstance(init, ast.Assign) and len(init.targets) == 1:
+                tgt = init.targets[0]
+            elif isinstance(init, ast.AnnAssign) and init.value is not None:
+                tgt = init.target
+            v = strip_cast(init.value) if tgt is not None else None
+            empty = isinstance(v, ast.List) and not v.elts or (isinstance(v, ast.Call) and chain(v.func) == "list" and not v.args and not v.keywords)
+            if isinstance(tgt, ast.Name) and tgt.id == name and empty and not _mentions_name(st.iter, name) and not _mentions_name(st.target, name):
+                comp = ast.comprehension(target=st.target, iter=st.iter, ifs=[], is_async=0)
+                lc = ast.ListComp(elt=elt, generators=[comp])
+                new = ast.Assign(targets=[ast.Name(id=name, ctx=ast.Store())], value=lc)
+                ast.copy_location(new, st)
+                ast.copy_location(lc, st)
+                ast.fix_missing_locations(new)
+                out = out[:j] + out[j + 1:] + [new]
+                continue
+        out.append(st)
+    return out
+
+
+def _read_before_rebound(stmts: list, name: str) -> bool:
+    """Is `name` read in the statements before a statement binds it again (plain assignment or loop target)?"""
+    for st in stmts:
+        if isinstance(st, ast.For) and any(isinstance(n, ast.Name) and n.id == name for n in ast.walk(st.target)):
+            return _mentions_name(st.iter, name)
+        if isinstance(st, (ast.Assign, ast.AnnAssign)) and st.value is not None:
+            tg = st.targets if isinstance(st, ast.Assign) else [st.target]
+            if any(isinstance(n, ast.Name) and n.id == name and isinstance(n.ctx, ast.Store) for t in tg for n in ast.walk(t)):
+                return _mentions_name(st.value, name)
+        if _mentions_name(st, name):
+            return True
+    return False
+
+
+def _accumulation(st: ast.AST):
+    """(L, E) if st is `for .. in ..: L.append(E)` (or `L += [E]`) with nothing else in the loop and E not mentioning L."""
+    if not isinstance(st, ast.For) or st.orelse or len(st.body) != 1:
+        return None
+    b = st.body[0]
+    name, elt = None, None
+    if isinstance(b, ast.Expr) and isinstance(b.value, ast.Call) and isinstance(b.value.func, ast.Attribute) and b.value.func.attr == "append" \
+            and isinstance(b.value.func.value, ast.Name) and len(b.value.args) == 1 and not b.value.keywords and not isinstance(b.value.args[0], ast.Starred):
+        name, elt = b.value.func.value.id, b.value.args[0]
+    elif isinstance(b, ast.AugAssign) and isinstance(b.op, ast.Add) and isinstance(b.target, ast.Name) and isinstance(b.value, ast.List) \
+            and len(b.value.elts) == 1 and not isinstance(b.value.elts[0], ast.Starred):
+        name, elt = b.target.id, b.value.elts[0]
+    if name is None or _mentions_name(elt, name):
+        return None
+    return name, elt
+
+
+def _decode_ctor(ev: TermEval, fi: FuncInfo, depth: int = 0) -> tuple[ast.Call, list[T], dict[str, T]]:
     """
     from_unpack_list as straight-line code: locals are bound in order; the result is ONE constructor call, returned directly or through a
-    local (`p = cls(..); return p`).  Gives (call, positional argument terms, keyword argument terms), evaluated where the call stands.
+    local (`p = cls(..); return p`), or built by a private helper the function returns the call of (followed with its parameters bound).
+    Gives (call, positional argument terms, keyword argument terms), evaluated where the call stands.
     """
     held: dict[str, tuple] = {}
 
@@ -124,13 +522,20 @@ def _decode_ctor(ev: TermEval, fi: FuncInfo) -> tuple[ast.Call, list[T], dict[st
         v = strip_cast(v)
         if isinstance(v, ast.Name) and v.id in held:
             return held[v.id]
-        if isinstance(v, ast.Call) and not any(isinstance(a, ast.Starred) for a in v.args) and all(k.arg is not None for k in v.keywords) \
+        if isinstance(v, ast.Call) and all(k.arg is not None for k in v.keywords) \
                 and (chain(v.func) == "cls" or ev.repo.resolve_class_expr(fi.module, v.func) is not None):
-            return v, [ev.ev(a) for a in v.args], {k.arg: ev.ev(k.value) for k in v.keywords}
+            pos: list[T] = []
+            for a in v.args:
+                if isinstance(a, ast.Starred):
+                    seq = ev.ev(a.value)          # cls(*values): the elements of a tuple / list term, in order
+                    if seq.op not in ("tuple", "list"):
+                        raise Undecided(f"starred constructor argument `{norm(a)[:40]}`")
+                    pos.extend(seq.args)
+                else:
+                    pos.append(ev.ev(a))
+            return v, pos, {k.arg: ev.ev(k.value) for k in v.keywords}
         return None
-    for st in fi.node.body:
-        if (isinstance(st, ast.Expr) and isinstance(st.value, ast.Constant)) or isinstance(st, ast.Pass):
-            continue
+    for st in _straight_line(fi.node.body):
         if isinstance(st, (ast.Assign, ast.AnnAssign)) and st.value is not None:
             tgts = st.targets if isinstance(st, ast.Assign) else [st.target]
             c = ctor(st.value) if len(tgts) == 1 and isinstance(tgts[0], ast.Name) else None
@@ -147,10 +552,40 @@ def _decode_ctor(ev: TermEval, fi: FuncInfo) -> tuple[ast.Call, list[T], dict[st
         if isinstance(st, ast.Return) and st.value is not None:
             c = ctor(st.value)
             if c is None:
+                c = _ctor_through_helper(ev, fi, strip_cast(st.value), depth)
+            if c is None:
                 raise Undecided("from_unpack_list does not return a constructor call")
             return c
         raise Undecided(f"statement `{norm(st)[:60]}` in from_unpack_list")
     raise Undecided("from_unpack_list has no return")
+
+
+def _ctor_through_helper(ev: TermEval, fi: FuncInfo, v: ast.AST, depth: int):
+    """`return cls._build(a, b)` / `return _build(cls, a, b)`: the constructor call stands in the helper; decode it there, parameters bound."""
+    if not isinstance(v, ast.Call) or depth > 2 or any(isinstance(a, ast.Starred) for a in v.args) or any(k.arg is None for k in v.keywords):
+        return None
+    f = v.func
+    target, recv = None, None
+    if isinstance(f, ast.Name) and f.id not in ev.env:
+        r = ev.repo.resolve_name(fi.module, f.id)
+        target = r if isinstance(r, FuncInfo) and r.cls is None else None
+    elif isinstance(f, ast.Attribute) and isinstance(f.value, ast.Name) and fi.cls is not None:
+        k = fi.cls if f.value.id == "cls" else (ev.repo.resolve_class_expr(fi.module, f.value) if f.value.id not in ev.env else None)
+        m = k.lookup(f.attr) if k is not None else None
+        if m is not None and m.name != "from_unpack_list":
+            decs = {d.split(".")[-1] for d in m.decorator_names()}
+            if "classmethod" in decs:
+                target, recv = m, (ev.env.get("cls") if f.value.id == "cls" else None) or T("cls", ())
+            elif "staticmethod" in decs:
+                target = m
+    if target is None or target.is_async or target is fi:
+        return None
+    sub = _bind_helper(ev, target, recv, [ev.ev(a) for a in v.args], {k.arg: ev.ev(k.value) for k in v.keywords})
+    call, pos, kw = _decode_ctor(sub, target, depth + 1)
+    # `cls(...)` inside a module-level helper is only the payload class if the helper received it as `cls`
+    if chain(call.func) == "cls" and sub.env.get("cls") != T("cls", ()):
+        raise Undecided(f"helper {target.qualname} constructs through a `cls` that is not the payload class")
+    return call, pos, kw
 
 
 def _bind_target(ev: TermEval, tgt: ast.AST, val: T) -> None:
@@ -198,7 +633,7 @@ def eval_to_pack_list(ctx: Ctx, cls: ClassInfo, depth: int = 0) -> list[tuple[st
             return eval_to_pack_list(ctx, base, depth + 1)
         if isinstance(v, ast.Name) and v.id in lists:
             return lists[v.id]
-        if isinstance(v, ast.List) and (not v.elts or not isinstance(v.elts[0], ast.Starred)):
+        if isinstance(v, ast.List):
             out = []
             for x in v.elts:
                 if isinstance(x, ast.Starred):
@@ -212,6 +647,27 @@ def eval_to_pack_list(ctx: Ctx, cls: ClassInfo, depth: int = 0) -> list[tuple[st
                     except Undecided:
                         return None          # some other list, not a pack list
             return out
+        if isinstance(v, (ast.ListComp, ast.GeneratorExp)) and len(v.generators) == 1 and not v.generators[0].ifs and not v.generators[0].is_async:
+            # [(fmt, x) for x in (a, b, c)]: a pack list with one entry per element of a sequence of known length
+            g = v.generators[0]
+            try:
+                seq = ev.ev(g.iter)
+            except Undecided:
+                return None
+            if seq.op not in ("tuple", "list"):
+                return None
+            out = []
+            saved = dict(ev.env)
+            try:
+                for x in seq.args:
+                    _bind_target(ev, g.target, x)
+                    out.append(_pack_entry(ev, v.elt))
+            except Undecided:
+                return None
+            finally:
+                ev.env.clear()
+                ev.env.update(saved)
+            return out
         if isinstance(v, ast.BinOp) and isinstance(v.op, ast.Add):
             l, r = list_value(v.left), list_value(v.right)
             if l is not None and r is not None:
@@ -220,11 +676,7 @@ def eval_to_pack_list(ctx: Ctx, cls: ClassInfo, depth: int = 0) -> list[tuple[st
             sub = list_value(v.args[0])
             return list(sub) if sub is not None else None
         return None
-    for st in fi.node.body:
-        if isinstance(st, ast.Expr) and isinstance(st.value, ast.Constant):
-            continue
-        if isinstance(st, ast.Pass):
-            continue
+    for st in _straight_line(fi.node.body):
         if isinstance(st, (ast.Assign, ast.AnnAssign)) and st.value is not None:
             tgts = st.targets if isinstance(st, ast.Assign) else [st.target]
             if len(tgts) == 1 and isinstance(tgts[0], ast.Name):
@@ -294,9 +746,7 @@ def init_fields(ctx: Ctx, cls: ClassInfo, args: list[T], kwargs: dict[str, T], d
             raise Undecided(f"missing constructor argument {p}")
     fields: dict[str, T] = {}
     ev = _TermEval(ctx.repo, fi, env, fields)
-    for st in fi.node.body:
-        if isinstance(st, ast.Expr) and isinstance(st.value, ast.Constant):
-            continue
+    for st in _straight_line(fi.node.body):
         if isinstance(st, ast.Expr) and isinstance(st.value, ast.Call):
             c = st.value
             if isinstance(c.func, ast.Attribute) and c.func.attr == "__init__" and isinstance(c.func.value, ast.Call) and chain(c.func.value.func) == "super":
@@ -344,6 +794,7 @@ def normalise(ctx: Ctx, cls: ClassInfo, t: T, init_of_field) -> T:
         # join(map(pack(F, *elem), field)) with struct-strided pieces
         if src.op == "join" and src.args[0].op == "map":
             m, over = src.args[0].args
+            m = _pack_star(m)
             if m.op == "pack" and is_const(m.args[0]) and len(m.args) == 2 and m.args[1].op == "star" and m.args[1].args[0].op == "elem" and over.op == "field":
                 fmt = m.args[0].args[0]
                 try:
@@ -362,6 +813,19 @@ def normalise(ctx: Ctx, cls: ClassInfo, t: T, init_of_field) -> T:
                     if ok:
                         return over
     return t
+
+
+def _pack_star(m: T) -> T:
+    """pack(F, e[0], e[1], .., e[k-1]) with k = number of values F takes  ==  pack(F, *e)  for every k-tuple e (the legal elements)."""
+    if m.op == "pack" and len(m.args) >= 2 and is_const(m.args[0]) and isinstance(m.args[0].args[0], str):
+        try:
+            k = struct_arity(m.args[0].args[0])
+        except struct.error:
+            return m
+        vals = m.args[1:]
+        if len(vals) == k and all(v.op == "index" and v.args[0].op == "elem" and v.args[1] == Const(i) for i, v in enumerate(vals)):
+            return T("pack", (m.args[0], T("star", (T("elem", ()),))))
+    return m
 
 
 def _canon_dec(dec: str) -> str:
@@ -409,7 +873,7 @@ def definitely_different(t: T, f: str) -> str | None:
             return f"the joined {ELEMENT_SIZE}-byte elements are re-split into chunks of {n}"
         if src.op == "join" and src.args[0].op == "field" and len(ps) == 1 and ps[0][:2] != (0, n):
             return f"chunks of stride {n} take bytes {ps[0][0]}..{ps[0][1]} of each element"
-        if src.op == "join" and src.args[0].op == "map" and src.args[0].args[0].op == "pack" and is_const(src.args[0].args[0].args[0]):
+        if src.op == "join" and src.args[0].op == "map" and _pack_star(src.args[0].args[0]).op == "pack" and is_const(src.args[0].args[0].args[0]):
             fmt = src.args[0].args[0].args[0].args[0]
             try:
                 size = struct.calcsize(fmt)
@@ -735,7 +1199,10 @@ def rule_name_grammar(ctx: Ctx) -> None:
     defaults = {}
     for cname in ("VarLen", "ListOf", "Address", "DefaultArray"):
         ci = ctx.repo.cls(cname, SER)
-        a = ci.methods["__init__"].node.args
+        ctor = ci.lookup("__init__")
+        if ctor is None:
+            raise AnalysisError(f"anchor-lost: {cname}.__init__")
+        a = ctor.node.args
         ps = [p.arg for p in a.args][1:]
         defaults[cname] = dict(zip(ps[len(ps) - len(a.defaults):], [const_value(d) for d in a.defaults]))
     for name, c in table.items():
@@ -1058,7 +1525,19 @@ def _sym_struct(name, base, args, kwargs):
         off = args[2] if len(args) > 2 else kwargs.get("offset", 0)
         return _SymBytes.of(args[1]).unpack_from(args[0], off)
     if name in ("unpack", "struct.unpack") and len(args) == 2 and isinstance(args[0], str):
-        return _SymBytes.of(args[1]).unpack_from(args[0], 0)
+        b = _SymBytes.of(args[1])
+        vals = b.unpack_from(args[0], 0)
+        total = 0
+        for g in b.segs:
+            n = _SymBytes.size(g)
+            if n is None:
+                raise MiniUndecided(f"struct.unpack({args[0]!r}) of a byte string of unknown length {b!r}")
+            total += n
+        if total != struct.calcsize(args[0]):
+            raise MiniRaised(f"struct.error: unpack requires a buffer of {struct.calcsize(args[0])} bytes, got {total} ({b!r})")
+        return vals
+    if name in ("calcsize", "struct.calcsize") and len(args) == 1 and isinstance(args[0], str):
+        return struct.calcsize(args[0])
     return NotImplemented
 
 
@@ -1179,11 +1658,207 @@ def rule_cell_codec(ctx: Ctx) -> None:
     n = 0
     for c in base.all_subclasses():
         fe, ne = c.lookup_attr("format_list"), c.lookup_attr("names")
-        if isinstance(fe, ast.List) and isinstance(ne, ast.List):
+        if isinstance(fe, (ast.List, ast.Tuple)) and isinstance(ne, (ast.List, ast.Tuple)) and fe.elts and ne.elts:
             n += 1
             ctx.check(const_value(fe.elts[0]) == "I" and const_value(ne.elts[0]) == "circuit_id", "cell-codec", c.where, c.node, f"{c.name} starts with circuit_id:'I'",
                       f"{c.name} does not start with a 4-byte circuit_id: send_cell strips the first 4 bytes")
     ctx.floor("cell-codec.cellable", n, 10)
+
+
+# ------------------------------------------------------------------------------------------ which packer (de)codes a format name
+_MUTATORS = {"setdefault", "update", "append", "extend", "add", "pop", "clear", "insert", "remove", "popitem", "discard", "appendleft", "__setitem__", "__delitem__"}
+
+
+def _state_writes(ctx: Ctx, m) -> set:
+    """('global', name) / ('attr', name): module-level variables and instance / class attributes that some function of module m changes after
+    construction (item / attribute stores, mutating method calls, `global` rebinding); plain `self.x = ..` in __init__ does not count."""
+    from ..match import local_defs
+    out: set = set()
+    for f in m.all_functions:
+        params = set(f.params())
+        declared_global = {n for g in walk_no_nested(f.node) if isinstance(g, ast.Global) for n in g.names}
+
+        def root_of(x):
+            path = []
+            while isinstance(x, (ast.Subscript, ast.Attribute)):
+                path.append(x)
+                x = x.value
+            return x, path[::-1]
+
+        def note(target, through_item: bool) -> None:
+            r, path = root_of(target)
+            if not isinstance(r, ast.Name):
+                return
+            first = path[0] if path else None
+            if r.id in ("self", "cls") or ctx.repo.resolve_class_expr(m, r) is not None:
+                if isinstance(first, ast.Attribute) and (through_item or len(path) > 1 or f.name != "__init__"):
+                    out.add(("attr", first.attr))
+                return
+            if r.id in params or (r.id not in declared_global and local_defs(f, r.id)):
+                return
+            if r.id in m.constants and (path or r.id in declared_global):
+                out.add(("global", r.id))
+        for n in walk_no_nested(f.node):
+            if isinstance(n, (ast.Assign, ast.AugAssign, ast.AnnAssign, ast.Delete)):
+                tgts = n.targets if isinstance(n, (ast.Assign, ast.Delete)) else [n.target]
+                for t in tgts:
+                    for x in ast.walk(t):
+                        if isinstance(x, (ast.Subscript, ast.Attribute)) and isinstance(x.ctx, (ast.Store, ast.Del)):
+                            note(x, isinstance(x, ast.Subscript))
+                        elif isinstance(x, ast.Name) and isinstance(x.ctx, (ast.Store, ast.Del)) and x.id in declared_global:
+                            note(x, False)
+            elif isinstance(n, ast.Call) and isinstance(n.func, ast.Attribute) and n.func.attr in _MUTATORS:
+                note(ast.Subscript(value=n.func.value, slice=ast.Constant(value=0), ctx=ast.Store()), True)
+    return out
+
+
+def _origins(ctx: Ctx, fi: FuncInfo, e: ast.AST, seen: set, depth: int = 0) -> set:
+    """
+    Where the value of expression e (inside fi) may come from: ('self', attr) | ('global', name) | ('classattr', attr) | ('param', name).
+    Locals are followed through ALL their definitions (assignments, loop targets -> the iterable, augmented assignments), calls through
+    their callee and arguments, `self.m(..)` through the return values of m; an over-approximation of the data flow.
+    """
+    from ..match import local_defs
+    out: set = set()
+    if depth > 12 or e is None:
+        return out
+    e = strip_cast(e)
+    if isinstance(e, ast.Name):
+        if e.id in ("self", "cls"):
+            return out
+        defs = local_defs(fi, e.id)
+        if defs:
+            if (id(fi.node), e.id) in seen:
+                return out
+            seen.add((id(fi.node), e.id))
+            for st, val, _ in defs:
+                if val is not None:
+                    out |= _origins(ctx, fi, val, seen, depth + 1)
+                elif isinstance(st, (ast.For, ast.AsyncFor)):
+                    out |= _origins(ctx, fi, st.iter, seen, depth + 1)
+                elif isinstance(st, ast.AugAssign):
+                    out |= _origins(ctx, fi, st.value, seen, depth + 1)
+                elif isinstance(st, (ast.With, ast.AsyncWith)):
+                    for it in st.items:
+                        out |= _origins(ctx, fi, it.context_expr, seen, depth + 1)
+            if e.id in fi.params():
+                out.add(("param", e.id))
+            return out
+        if e.id in fi.params():
+            return {("param", e.id)}
+        if e.id in fi.module.constants:
+            return {("global", e.id)}
+        return out
+    if isinstance(e, ast.Attribute):
+        root = e
+        path = []
+        while isinstance(root, (ast.Attribute, ast.Subscript)):
+            path.append(root)
+            root = root.value
+        first = path[-1]
+        if isinstance(root, ast.Name) and root.id in ("self", "cls") and isinstance(first, ast.Attribute):
+            out.add(("self", first.attr))
+            for x in path:
+                if isinstance(x, ast.Subscript):
+                    out |= _origins(ctx, fi, x.slice, seen, depth + 1)
+            return out
+        if isinstance(root, ast.Name) and ctx.repo.resolve_class_expr(fi.module, root) is not None and isinstance(first, ast.Attribute):
+            return {("classattr", first.attr)}
+        if isinstance(root, ast.Call) and chain(root.func) in ("type",) and isinstance(first, ast.Attribute):
+            return {("classattr", first.attr)}          # type(self).X
+        return _origins(ctx, fi, e.value, seen, depth + 1)
+    if isinstance(e, ast.Call):
+        f = e.func
+        if isinstance(f, ast.Attribute) and isinstance(f.value, ast.Name) and f.value.id in ("self", "cls") and fi.cls is not None \
+                and fi.cls.lookup(f.attr) is not None:
+            m = fi.cls.lookup(f.attr)
+            if (id(m.node), "<return>") not in seen:
+                seen.add((id(m.node), "<return>"))
+                for r in walk_no_nested(m.node):
+                    if isinstance(r, ast.Return) and r.value is not None:
+                        out |= {o for o in _origins(ctx, m, r.value, seen, depth + 1) if o[0] != "param"}
+        else:
+            out |= _origins(ctx, fi, f, seen, depth + 1)
+        for a in list(e.args) + [k.value for k in e.keywords]:
+            out |= _origins(ctx, fi, a, seen, depth + 1)
+        return out
+    if isinstance(e, (ast.ListComp, ast.SetComp, ast.GeneratorExp, ast.DictComp)):
+        bound = {n.id for g in e.generators for n in ast.walk(g.target) if isinstance(n, ast.Name)}
+        for sub in ast.iter_child_nodes(e):
+            for o in _origins_children(ctx, fi, sub, seen, depth + 1, bound):
+                out.add(o)
+        return out
+    for sub in ast.iter_child_nodes(e):
+        if isinstance(sub, ast.expr):
+            out |= _origins(ctx, fi, sub, seen, depth + 1)
+    return out
+
+
+def _origins_children(ctx: Ctx, fi: FuncInfo, node: ast.AST, seen: set, depth: int, bound: set) -> set:
+    """origins of everything inside a comprehension part, ignoring the names the comprehension binds itself"""
+    out: set = set()
+    if isinstance(node, ast.comprehension):
+        parts = [node.iter, *node.ifs]
+    else:
+        parts = [node]
+    for p in parts:
+        if isinstance(p, ast.Name) and p.id in bound:
+            continue
+        if isinstance(p, ast.expr):
+            sub = _origins(ctx, fi, p, seen, depth)
+            out |= {o for o in sub if not (o[0] in ("param", "global") and o[1] in bound)}
+    return out
+
+
+def rule_packer_lookup(ctx: Ctx) -> None:
+    """
+    Encoder and decoder of one Serializer agree on what a format name means only if both take the packer for it from the SAME table at
+    the time of the call: the per-instance table that add_packer() writes (self._packers).  Every `<packer>.pack(..)` / `<packer>.unpack(..)`
+    the Serializer's coding methods make must therefore get its receiver from that table only - not from module-level / class-level state
+    or another instance attribute that functions change after construction (a hand-made cache of resolved packers): such a copy is shared
+    between serializers or survives add_packer(), so decode(encode(m)) uses a different packer than encode did.
+    """
+    repo = ctx.repo
+    ser = repo.cls("Serializer", SER)
+    addp = ser.lookup("add_packer")
+    ctx.anchor(addp is not None, "Serializer.add_packer")
+    m = ser.module
+    writes = _state_writes(ctx, m)
+    own = set()
+    for n in walk_no_nested(addp.node):
+        tg = []
+        if isinstance(n, ast.Assign):
+            tg = [t for t in n.targets if isinstance(t, ast.Subscript)]
+        elif isinstance(n, ast.Call) and isinstance(n.func, ast.Attribute) and n.func.attr in _MUTATORS:
+            tg = [n.func]
+        for t in tg:
+            c = chain(t.value)
+            if c and c.startswith("self.") and c.count(".") == 1:
+                own.add(c.split(".")[1])
+    ctx.anchor(len(own) == 1, "the one table Serializer.add_packer registers packers in")
+    table = next(iter(own))
+    n = 0
+    for meth in ser.methods.values():
+        for c in walk_no_nested(meth.node):
+            if not (isinstance(c, ast.Call) and isinstance(c.func, ast.Attribute) and c.func.attr in ("pack", "unpack")):
+                continue
+            recv = c.func.value
+            if chain(recv) in ("self", "cls", "super()", "struct") or (isinstance(recv, ast.Name) and recv.id == "struct"):
+                continue
+            n += 1
+            org = _origins(ctx, meth, recv, set())
+            bad = sorted(f"{'self.' if o[0] == 'self' else ''}{o[1]}" for o in org
+                         if (o[0] == "global" and ("global", o[1]) in writes)
+                         or (o[0] == "classattr" and ("attr", o[1]) in writes)
+                         or (o[0] == "self" and o[1] != table and ("attr", o[1]) in writes))
+            has_table = ("self", table) in org
+            ctx.check(not bad and has_table, "packer-lookup", meth, c, f"{meth.qualname}: `{norm(c.func)[:50]}` takes its packer from self.{table} only",
+                      f"{meth.qualname}: the packer of `{norm(c.func)[:60]}` comes from {bad or 'something other than the registration table'}"
+                      + (f" (state that functions of {m.relpath} change after construction), not only from self.{table}, the table add_packer() writes and the "
+                         "encoder reads at call time: a packer resolved earlier / by another Serializer decodes what this one encoded, so the message does not "
+                         "survive encode/decode once a format name is bound differently" if bad else
+                         f": it is not looked up in self.{table}, the table add_packer() writes"))
+    ctx.floor("packer-lookup", n, 3)
 
 
 def run(ctx: Ctx) -> None:
@@ -1194,8 +1869,20 @@ def run(ctx: Ctx) -> None:
     rule_name_grammar(ctx)
     rule_bit_order(ctx)
     rule_cell_codec(ctx)
-    from .c20 import rule_type_map      # dataclass payloads are part of C02's quantifier: they must be converted from their own definition
-    rule_type_map(ctx)
+    rule_packer_lookup(ctx)
+    from . import c20                   # dataclass payloads are part of C02's quantifier: they must be converted from their own definition
+    if _table_is_interpreted(ctx) and hasattr(c20, "registered_formats"):
+        # the table is not one plain dict display: hand the shared rule the exact set of registered names (the table __init__ computes plus
+        # the add_packer registrations) instead of its syntactic reading of the constructor; restored afterwards
+        exact = set(serializer_table(ctx)) | set(extra_packers(ctx))
+        saved = c20.registered_formats
+        c20.registered_formats = lambda _ctx: set(exact)
+        try:
+            c20.rule_type_map(ctx)
+        finally:
+            c20.registered_formats = saved
+    else:
+        c20.rule_type_map(ctx)
     ctx.assume("struct / socket.inet_* / array semantics are CPython's (trusted); legal values are whatever the struct code admits")
     ctx.assume("community ids / mids in preference lists are 20 bytes (chunks(join(xs), 20) = xs)")
     ctx.assume("connection_type ranges over its documented values unknown / public / symmetric-NAT")
@@ -1274,6 +1961,19 @@ WITNESSES = [
     {"name": "cell header format differs", "file": _AP, "rule": "cell-codec",
      "old": "        circuit_id, plaintext, relay_early = unpack_from(\"!I??\", packet, 23)\n        return cls(circuit_id, packet[29:], plaintext, relay_early)",
      "new": "        circuit_id, relay_early, plaintext = unpack_from(\"!I??\", packet, 23)\n        return cls(circuit_id, packet[29:], plaintext, relay_early)"},
+    {"name": "decoder takes its packers from a module-level table of resolved packers", "rule": "packer-lookup", "edits": [
+        {"file": "ipv8/messaging/serialization.py", "old": "SelfS = typing.TypeVar(\"SelfS\", bound=\"Serializable\")\n",
+         "new": "SelfS = typing.TypeVar(\"SelfS\", bound=\"Serializable\")\n_RESOLVED: dict = {}\n"},
+        {"file": "ipv8/messaging/serialization.py",
+         "old": "                offset = self._packers[fmt].unpack(data, offset, unpack_list)  # type: ignore[index]\n",
+         "new": "                if isinstance(fmt, str) and fmt not in _RESOLVED:\n                    _RESOLVED[fmt] = self._packers[fmt]\n"
+                "                offset = (_RESOLVED[fmt] if isinstance(fmt, str) else self._packers[fmt]).unpack(data, offset, unpack_list)\n"}]},
+    {"name": "decoder keeps resolved packers in a per-instance cache that add_packer does not refresh", "rule": "packer-lookup", "edits": [
+        {"file": "ipv8/messaging/serialization.py", "old": "        unpack_list: list = []\n        for fmt in serializable.format_list:\n            try:\n"
+                                                          "                offset = self._packers[fmt].unpack(data, offset, unpack_list)  # type: ignore[index]\n",
+         "new": "        unpack_list: list = []\n        plans = self.__dict__.setdefault(\"_plans\", {})\n        for fmt in serializable.format_list:\n            try:\n"
+                "                if isinstance(fmt, str) and fmt not in self._plans:\n                    self._plans[fmt] = self._packers[fmt]\n"
+                "                offset = (self._plans[fmt] if isinstance(fmt, str) else self._packers[fmt]).unpack(data, offset, unpack_list)\n"}]},
     {"name": "unwrap puts circuit id first", "file": _AP, "rule": "cell-codec",
      "old": "                         self.message[0:1],\n                         pack(\"!I\", self.circuit_id),\n                         self.message[1:]])",
      "new": "                         pack(\"!I\", self.circuit_id),\n                         self.message])"},
